@@ -14,6 +14,7 @@ def base_types():
         lambda: Type(PQName([NameSpecifier("ns"), NameSpecifier("T")])),
         lambda: Type(PQName([NameSpecifier("V", TemplateSpecialization([TemplateArgument(Type(PQName([FundamentalSpecifier("int")])))]))]), volatile=True),
         lambda: Type(PQName([NameSpecifier(""), NameSpecifier("G")]), const=True, volatile=True),
+        lambda: Type(PQName([FundamentalSpecifier("long double")])),
     ]
 
 
